@@ -169,6 +169,16 @@ func (h *Handler) HandleDownload(w http.ResponseWriter, r *http.Request) {
 		}
 	}
 
+	// the connection file consists of name:type:value lines: a value with a line break in it,
+	// or with blanks at its ends, would not be read back as what was written
+	for _, v := range []string{host, render, domain} {
+		if strings.ContainsAny(v, "\r\n") || strings.TrimSpace(v) != v {
+			log.Printf("Cannot write %q into a connection file for user %s", v, id.UserName())
+			http.Error(w, errors.New("invalid host or user name").Error(), http.StatusBadRequest)
+			return
+		}
+	}
+
 	token, err := h.paaTokenGenerator(ctx, user, host)
 	if err != nil {
 		log.Printf("Cannot generate PAA token for user %s due to %s", user, err)
